@@ -268,6 +268,8 @@ def write_evidence(ctx, mod, violations):
         'distribution': ctx.stats.get('distribution', {}),
         'translator': ctx.stats.get('translator', {}),
         'translator_dis': ctx.stats.get('translator_dis', {}),
+        'library_model_validation': ctx.stats.get('library_model_validation', {}),
+        'library_model_validation_detail': ctx.stats.get('library_model_validation_detail', {}),
         'leanchecker': ctx.stats.get('leanchecker', 'not run (quick tier)'),
         'broken': ctx.broken,
         'source_units_differing_from_pinned_tree': ctx.stats.get('source_units_changed', []),
@@ -382,6 +384,8 @@ def run_check(ctx, mod):
     ctx.stats['source_units_changed'] = ['%s:%s' % (c['file'], c['unit']) for c in ctx.src_changed[:40]]
     # stage 4+5 (property specific): fills ctx.findings / ctx.broken / ctx.stats
     try:
+        import rtcheck
+        rtcheck.run_for(ctx, mod)      # library helpers the generated code calls vs CPython (a difference = broken tie)
         mod.explore(ctx)
         base_seed, rounds = ctx.seed, 0
         extra = int(os.environ.get('VERIF_EXTRA_ROUNDS', '4'))
